@@ -55,6 +55,13 @@ def plan(tier, seed):
             if d is None:
                 continue
             P.add("big:" + kind, desc=d, dt=_dtype(rng), mag=pick(rng, [1, 1, 1e-10, 1e8]))
+    for kind in lops.ARRAY_KINDS:
+        # parameter arrays with structure (unit modulus, +-1 / +-i, ones, constant, one-hot)
+        rng = P.rng("struct:" + kind)
+        for i in range(8 if tier == "quick" else 100):
+            d = lops.gen_struct_leaf(rng, kind, maxn)
+            if d is not None:
+                P.add("struct:" + kind, desc=d, dt=_dtype(rng))
     rng = P.rng("tree")
     for i in range(ntrees):
         depth = int(rng.integers(1, 4 if tier == "quick" else 5))
